@@ -1109,7 +1109,8 @@ mod b12 {
 	/// Impl-side oracle (no model): every record of the source inside the mirrored ranges reappears byte for byte.
 	fn b12_emit_mirror(rec: &mut Rec, class: &str, kind: &str, src: &[u8], msg: &[u8]) {
 		let req = kind == "req";
-		let in_src_range = |t: u64| if req { (1..80).contains(&t) || (1_000_000_000..2_000_000_000).contains(&t) } else { t < 160 || (1_000_000_000..3_000_000_000).contains(&t) };
+		let sinv = kind == "sinv"; // static invoice: built on the OFFER bytes, own records in the invoice ranges
+		let in_src_range = |t: u64| if req || sinv { (1..80).contains(&t) || (1_000_000_000..2_000_000_000).contains(&t) } else { t < 160 || (1_000_000_000..3_000_000_000).contains(&t) };
 		let (own_lo, own_hi, exp_lo, exp_hi) = if req { (80u64, 160u64, 2_000_000_000u64, 3_000_000_000u64) } else { (160, 240, 3_000_000_000, 4_000_000_000) };
 		let payer = if req { b12_select(msg, |t| t == 0) } else { vec![] };
 		let own = b12_select(msg, |t| (own_lo..own_hi).contains(&t));
@@ -1124,6 +1125,102 @@ mod b12 {
 		}
 		let h = |b: &[u8]| if b.is_empty() { "-".to_string() } else { hex(b) };
 		rec.case(&format!("mirror {} {} {} {} {} {}", kind, hex(src), h(&payer), h(&own), h(&exp_own), h(&sig)), &hex(msg), class, true);
+	}
+
+	enum B12Signer<'a> { Fixed(secp256k1::schnorr::Signature), Key(&'a Keypair) }
+
+	/// Insert an (unknown) record into a well-formed ascending stream at its ascending position; `None` if the type is present.
+	fn b12_insert_record(b: &[u8], typ: u64, value: &[u8]) -> Option<Vec<u8>> {
+		let recs = b12_split(b)?;
+		if recs.iter().any(|r| r.typ == typ) { return None; }
+		let at = recs.iter().find(|r| r.typ > typ).map(|r| r.start).unwrap_or(b.len());
+		let mut out = b[..at].to_vec(); out.extend_from_slice(&b12_record(typ, value)); out.extend_from_slice(&b[at..]);
+		Some(out)
+	}
+
+	/// verdict on signed bytes produced from `unsigned`: well-formed, strictly ascending, non-signature records == unsigned
+	fn b12_resign_verdict(unsigned: &[u8], out: &[u8]) -> &'static str {
+		match b12_split(out) {
+			None => "malformed",
+			Some(recs) => {
+				if recs.windows(2).any(|w| w[0].typ >= w[1].typ) { "not-ascending" }
+				else if b12_select(out, |t| !b12_is_sig(t)) == unsigned { "ok" } else { "contents-differ" }
+			},
+		}
+	}
+
+	/// Remote-signing flow: `unsigned` (the TLV bytes of an unsigned invoice request / invoice, as `Unsigned*::write` emits
+	/// them) -> `Unsigned*::try_from` -> `sign` -> serialise -> parse.  op `resign <req|inv> <unsigned> <signature record>` ->
+	/// `<verdict> <signed bytes>`: the model splits the unsigned bytes with the range translated from the TryFrom impl and
+	/// puts the signature record between the two halves.  Impl-side oracles (no model): try_from and sign succeed, the
+	/// signed bytes are a strictly ascending TLV stream whose non-signature records are the unsigned bytes, the real
+	/// parser accepts them and re-serialises them identically, and (plain case) they are byte-identical to the message the
+	/// builder signed in-process and parse to the same fingerprint.
+	fn b12_emit_resign(rec: &mut Rec, st: &mut B12St, class: &str, kind: &str, unsigned: &[u8], signer: B12Signer, expect: Option<&[u8]>) {
+		let secp = &st.secp;
+		let res: Result<Result<(Vec<u8>, Vec<u8>), String>, String> = guarded(B12Aus(|| {
+			if kind == "req" {
+				let u = UnsignedInvoiceRequest::try_from(unsigned.to_vec()).map_err(|e| format!("try_from: {:?}", e))?;
+				let mut reser = vec![]; u.write(&mut reser).map_err(|e| format!("write: {:?}", e))?;
+				let signed = u.sign(|m: &UnsignedInvoiceRequest| { let t: &lightning::offers::merkle::TaggedHash = m.as_ref(); Ok(match &signer { B12Signer::Fixed(s) => *s, B12Signer::Key(k) => secp.sign_schnorr_no_aux_rand(t.as_digest(), k) }) }).map_err(|e| format!("sign: {:?}", e))?;
+				Ok((b12_ser(&signed), reser))
+			} else {
+				let u = UnsignedBolt12Invoice::try_from(unsigned.to_vec()).map_err(|e| format!("try_from: {:?}", e))?;
+				let mut reser = vec![]; u.write(&mut reser).map_err(|e| format!("write: {:?}", e))?;
+				let signed = u.sign(|m: &UnsignedBolt12Invoice| { let t: &lightning::offers::merkle::TaggedHash = m.as_ref(); Ok(match &signer { B12Signer::Fixed(s) => *s, B12Signer::Key(k) => secp.sign_schnorr_no_aux_rand(t.as_digest(), k) }) }).map_err(|e| format!("sign: {:?}", e))?;
+				Ok((b12_ser(&signed), reser))
+			}
+		}));
+		let (out, reser) = match res {
+			Ok(Ok(o)) => o,
+			Ok(Err(e)) => { rec.oracle_fail(format!("remote-signing flow failed for an unsigned {} the library itself serialised ({}): {} unsigned={}", kind, class, e, hex(unsigned))); return; },
+			Err(p) => { rec.oracle_fail(format!("panic in Unsigned*::try_from / sign ({} {}): {} unsigned={}", class, kind, p, hex(unsigned))); return; },
+		};
+		st.b12_built(if kind == "req" { "resigned_invreq" } else { "resigned_invoice" });
+		// `Unsigned*::write` of the re-parsed object must give back the bytes it was parsed from.  On the current source it
+		// writes `self.bytes` only, i.e. WITHOUT `experimental_bytes` (candidate finding KF-C18-2, reported once per kind and
+		// run); anything else that goes missing (e.g. a non-experimental record cut off by a wrong split) is a plain failure.
+		if reser != unsigned {
+			let non_exp = b12_select(unsigned, |t| t < 1_000_000_000);
+			if reser == non_exp {
+				let k = format!("kf2:{}", kind);
+				if !st.probes.contains_key(&k) {
+					st.probes.insert(k, "seen".into());
+					rec.oracle_fail(format!("KF-C18-2 unsigned BOLT-12 message write omits experimental_bytes (Unsigned{}::write): try_from(b).write() != b for an unsigned message carrying experimental (>= 10^9) records, they are hashed and signed but not serialised; b={} written={}", if kind == "req" { "InvoiceRequest" } else { "Bolt12Invoice" }, hex(unsigned), hex(&reser)));
+				}
+			} else {
+				rec.oracle_fail(format!("re-parsed unsigned {} serialises to other bytes, a NON-experimental record is lost or moved ({}): parsed_from={} written={}", kind, class, hex(unsigned), hex(&reser)));
+			}
+		}
+		let verdict = b12_resign_verdict(unsigned, &out);
+		if verdict != "ok" { rec.oracle_fail(format!("sign(try_from(unsigned {})) is not a strictly ascending TLV stream carrying the unsigned records ({}; {}): unsigned={} signed={}", kind, verdict, class, hex(unsigned), hex(&out))); }
+		let parsed = if kind == "req" { b12_parse_invreq(out.clone()) } else { b12_parse_invoice(out.clone()) };
+		match &parsed {
+			Ok(Some((_, ser))) => { if ser != &out { rec.oracle_fail(format!("signed re-parsed {} parses but re-serialises differently ({}): signed={}", kind, class, hex(&out))); } },
+			Ok(None) => rec.oracle_fail(format!("the {} returned by sign(try_from(unsigned bytes)) does NOT PARSE BACK ({}): unsigned={} signed={}", kind, class, hex(unsigned), hex(&out))),
+			Err(p) => rec.oracle_fail(format!("panic parsing a signed re-parsed {} ({}): {} signed={}", kind, class, p, hex(&out))),
+		}
+		if let Some(e) = expect {
+			if e != &out[..] { rec.oracle_fail(format!("sign(try_from(unsigned {})) differs from the message signed in-process ({}): direct={} resigned={}", kind, class, hex(e), hex(&out))); }
+			let direct = if kind == "req" { b12_parse_invreq(e.to_vec()) } else { b12_parse_invoice(e.to_vec()) };
+			if let (Ok(Some((fa, _))), Ok(Some((fb, _)))) = (&direct, &parsed) { if fa != fb { rec.oracle_fail(format!("signed re-parsed {} exposes other contents than the message signed in-process ({}): direct={} resigned={}", kind, class, hex(e), hex(&out))); } }
+		}
+		let sig = b12_select(&out, b12_is_sig);
+		rec.case(&format!("resign {} {} {}", kind, hex(unsigned), hex(&sig)), &format!("{} {}", verdict, hex(&out)), class, true);
+	}
+
+	/// The unsigned bytes of a signed message plus unknown ODD records at every place a maintainer's split could get wrong:
+	/// the top of the message's own range (just below the next range / the signature), and all experimental ranges.
+	fn b12_resign_altered(rec: &mut Rec, rng: &mut Rng, st: &mut B12St, kind: &str, msg: &[u8], key: &Keypair) {
+		let mut u = b12_select(msg, |t| !b12_is_sig(t));
+		let (own_lo, own_hi, exp_his): (u64, u64, &[u64]) = if kind == "req" { (93, 160, &[2_000_000_000, 3_000_000_000]) } else { (161, 240, &[2_000_000_000, 3_000_000_000, 4_000_000_000]) };
+		let mut types: Vec<u64> = vec![];
+		if rng.chance(3, 4) { types.push(own_hi - 1); }
+		if rng.chance(1, 2) { types.push((own_lo + rng.below(own_hi - own_lo)) | 1); }
+		for hi in exp_his { if rng.chance(2, 3) { types.push(if rng.chance(1, 2) { hi - 1 } else { (hi - 1_000_000_000 + rng.below(1_000_000_000)) | 1 }); } }
+		if types.is_empty() { types.push(own_hi - 1); }
+		for t in types { let n = rng.below(5) as usize; if let Some(v) = b12_insert_record(&u, t, &rng.bytes(n)) { u = v; } }
+		b12_emit_resign(rec, st, if kind == "req" { "resign:req:unknown-odd-records" } else { "resign:inv:unknown-odd-records" }, kind, &u, B12Signer::Key(key), None);
 	}
 
 	/// `mverify` op (metadata length must not be a key-deriving one). `expect`: what the impl oracle demands.
@@ -1635,6 +1732,7 @@ mod b12 {
 
 	/// Checks shared by invoices for offers and for refunds; emits the `merkle`/`digest` ops.
 	fn b12_check_invoice(rec: &mut Rec, rng: &mut Rng, st: &mut B12St, kind: &'static str, inv: &Bolt12Invoice, ip: &B12InvP, unsigned_root: Option<[u8; 32]>) {
+		{ let ib = b12_ser(inv); let un = b12_select(&ib, |t| !b12_is_sig(t)); b12_emit_resign(rec, st, if kind == "invoice" { "resign:inv:for-offer" } else { "resign:inv:for-refund" }, "inv", &un, B12Signer::Fixed(inv.signature()), Some(&ib)); }
 		st.b12_built(kind);
 		let bytes = b12_ser(inv);
 		let root = b12_emit_merkle(rec, &format!("merkle:{}", kind), &bytes);
@@ -1880,6 +1978,8 @@ mod b12 {
 			Ok(Some((r, d, tag))) => { if Some(r) != rroot || Some(d) != rdigest || tag != B12_TAG_INVREQ { rec.oracle_fail(format!("UnsignedInvoiceRequest::try_from(signature stripped): merkle root / digest / tag differ from the hooks: bytes={}", hex(&rbytes))); } },
 			other => rec.oracle_fail(format!("UnsignedInvoiceRequest::try_from(signature stripped) failed: {:?} bytes={}", other.map(|o| o.is_some()), hex(&stripped))),
 		}
+		b12_emit_resign(rec, st, match (rp.note.is_some(), rp.hrn) { (true, true) => "resign:req:note+hrn", (true, false) => "resign:req:note", (false, true) => "resign:req:hrn", _ => "resign:req:plain" }, "req", &stripped, B12Signer::Fixed(req.signature()), Some(&rbytes));
+		if rp.qty.is_some() { st.b12_built("resigned_invreq:quantity"); } if rp.net.is_some() { st.b12_built("resigned_invreq:chain"); } if rp.amount.is_some() { st.b12_built("resigned_invreq:amount"); }
 		if let Some(d) = rdigest { if st.secp.verify_schnorr(&req.signature(), &secp256k1::Message::from_digest(d), &req.payer_signing_pubkey().x_only_public_key().0).is_err() { rec.oracle_fail(format!("request signature does not verify over the hook digest: bytes={}", hex(&rbytes))); } }
 		let offer_amt = p.amount.unwrap_or(0);
 		b12_expect(rec, req.chain() == b12_chain_hash(rp.net.unwrap_or(Network::Bitcoin)), "invreq.chain", &rbytes);
@@ -1901,6 +2001,7 @@ mod b12 {
 			let secret = b12_secret_payer(&base_p, B12_IV_INVREQ, &enc, &payer.nonce_bytes, &tlv);
 			let meta = req.payer_metadata().to_vec();
 			b12_emit_mhmac(rec, st, "mhmac:p:invreq", true, &payer.ek, B12_IV_INVREQ, &meta, &tlv, &secret, Some(req.payer_signing_pubkey()));
+			if let Ok(kp) = Keypair::from_seckey_slice(&st.secp, &secret) { if kp.public_key() == req.payer_signing_pubkey() { b12_resign_altered(rec, rng, st, "req", &rbytes, &kp); } }
 		}
 		// ---- recipient-side verification, positives and negatives
 		let verified = b12_verify_invreq(rec, rng, st, &req, p.mode, &recipient, &offer);
@@ -1937,6 +2038,7 @@ mod b12 {
 				b12_expect(rec, inv.offer_id() == Some(offer.id()), "invoice.offer_id", &ibytes);
 				b12_check_payer_verify(rec, rng, st, &inv, &payer, Some(pid), "invoice for offer");
 				b12_invoice_verify_ops(rec, rng, st, &inv, &payer, true, if p.mode == 2 { None } else { Some(&recipient.keys) });
+				if p.mode != 2 && inv.signing_pubkey() == recipient.keys.public_key() { b12_resign_altered(rec, rng, st, "inv", &ibytes, &recipient.keys); }
 				// another payer (other key material, nonce, payment id) on the same offer
 				if idx % 3 == 0 {
 					let payer2 = b12_party(rng, st);
@@ -2191,6 +2293,7 @@ mod b12 {
 		};
 		st.b12_built("static_invoice");
 		let bytes = b12_ser(&inv);
+		b12_emit_mirror(rec, "mirror:offer->static_invoice", "sinv", &obytes, &bytes);
 		let root = b12_emit_merkle(rec, "merkle:static_invoice", &bytes);
 		let digest = b12_emit_digest(rec, "digest:static_invoice", B12_TAG_STATIC, &bytes);
 		if root != Some(uroot) { rec.oracle_fail(format!("hook merkle root differs from UnsignedStaticInvoice merkle root: bytes={}", hex(&bytes))); }
